@@ -209,6 +209,9 @@ func covRD(c *ctx, kind, variant string, cfg rcfg, fs []sframe, cut, spec, tail,
 			w = w[:n]
 		}
 	}
+	if len(w) > 20000 && bufs != "4096" && bufs != "1000" {
+		bufs = "4096" // the extracted model is quadratic in (bytes x reads): big streams only with big caller buffers
+	}
 	src := newChunkReader(w, spec, tail)
 	evs, partial, err, ncont := covDrive(variant, src, cfg, intsSpec(bufs), 2*len(w)+100)
 	c.emit("%s %s %s %s %s %s %s %s -> %s %s %s %d %d", kind, variant, cfg.tok(), framesTok(fs), cut, spec, tail, bufs,
@@ -745,30 +748,11 @@ func covRunWops(w *wsutil.Writer, dst *recWriter, ops []string) (out []wobs) {
 	return out
 }
 
-// FINDING (open, see corpus/finding-C06-readfrom-error.cases): when ReadFrom ends with a non-EOF error of
-// its source (or io.ErrNoProgress) right after it has sent a fragment, the buffer is empty and the dirty
-// flag is not set (ReadFrom sets it on io.EOF only), so the following Flush sends nothing: the message
-// whose fragments are on the wire is never finished and the next message is glued onto it as
-// continuation frames. covOpenFragment recognises such a history on a scratch writer; the generator
-// leaves these inputs out until the defect is decided on (C06 must stay silent meanwhile).
-func covOpenFragment(cfg wcfg, ops string) bool {
-	dst := newRecWriter()
-	w, pan := newWriter(dst, cfg)
-	if pan {
-		return false
-	}
-	hit := false
-	for _, op := range strings.Split(ops, ",") {
-		func() {
-			defer func() { recover() }()
-			_, err := covApplyWop(w, dst, op)
-			if op[0] == 'z' && err != nil && w.Buffered() == 0 && w.VerifFseq() > 0 && !w.VerifDirty() {
-				hit = true
-			}
-		}()
-	}
-	return hit
-}
+// Regression note (defect F21, fixed in /repo): before the fix Writer.ReadFrom set the dirty flag on io.EOF
+// only; when its source failed (or stalled into io.ErrNoProgress) right after a full buffer had left as a
+// non-final fragment, the following Flush sent nothing, the message on the wire was never finished and the
+// next message was glued onto it as continuation frames. The YWZ histories below include these inputs;
+// corpus/C06.cases replays the first failing ones.
 
 // YWZ: a history (WH op tokens plus "z") on one Writer with a working destination
 func covWZ(c *ctx, cfg wcfg, ops string) {
@@ -793,9 +777,6 @@ func covC06(c *ctx) {
 					pre := []string{"", "w3/1,", "w3/1,ff,", "df,w2/9,"}[i%4]
 					post := []string{",fl", ",w4/2,fl", ",fl,w1/1,fl"}[i%3]
 					cfg := wcfg{ctor, side, byte(1 + i%2), "-"}
-					if covOpenFragment(cfg, pre+z+post) {
-						continue // open finding, see covOpenFragment
-					}
 					covWZ(c, cfg, pre+z+post)
 				}
 			}
